@@ -114,6 +114,14 @@ def fit_one(case, X, want_transform=True):
     Xin = to_input(case, X)
     user_dict = kw.get("token_dictionary")
     user_dict_before = None if user_dict is None else dict(user_dict)
+    if case.get("refit_first"):
+        # the same estimator instance is first fitted on other data: the definition must hold for a re-fit as
+        # for a first fit (nothing may be carried over from one fit to the next)
+        try:
+            m.fit(to_input(case, case["refit_first"]))
+            out["refitted"] = True
+        except Exception:
+            out["refitted"] = False
     try:
         M = m.fit_transform(Xin)
     except Exception as e:
